@@ -288,9 +288,17 @@ impl Scenario for Legacy {
                         cx.viol("C11.legacy", "migration did not move exactly min(limit, remaining) entries", format!("{}: {} -> {}", a.label, left, old_entries(post)));
                     }
                     // migrated claims are visible to their owners
-                    let total = |c: &Chain| -> u128 { [ALICE, BOB].iter().map(|u| hub_requests(c, u).iter().map(|r| r.1 + r.2).sum::<u128>()).sum() };
-                    if moved > 0 && total(post) <= total(pre) {
-                        cx.viol("C11.legacy", "migrated entries do not show up in UnbondRequests", a.label.clone());
+                    // legacy entries are bSei claims: whatever left the old list must show up, amount for amount,
+                    // as bSei claims of the same users, and no stSei claim may appear
+                    let old_sum = |c: &Chain| -> u128 {
+                        let p = lp(b"wait");
+                        c.contracts.get(HUB).unwrap().1 .0.iter().filter(|(k, _)| k.starts_with(&p)).map(|(_, v)| serde_json::from_slice::<String>(v).ok().and_then(|s| s.parse::<u128>().ok()).unwrap_or(0)).sum()
+                    };
+                    let b_total = |c: &Chain| -> u128 { [ALICE, BOB].iter().map(|u| hub_requests(c, u).iter().map(|r| r.1).sum::<u128>()).sum() };
+                    let st_total = |c: &Chain| -> u128 { [ALICE, BOB].iter().map(|u| hub_requests(c, u).iter().map(|r| r.2).sum::<u128>()).sum() };
+                    let moved_amount = old_sum(pre) - old_sum(post);
+                    if b_total(post) != b_total(pre) + moved_amount || st_total(post) != st_total(pre) {
+                        cx.viol("C11.legacy", "migrated entries do not show up as the same bSei claims in UnbondRequests", format!("{}: legacy amount moved {} bSei claims {} -> {} stSei claims {} -> {}", a.label, moved_amount, b_total(pre), b_total(post), st_total(pre), st_total(post)));
                     }
                 }
             } else if out.ok() {
